@@ -570,6 +570,7 @@ func TestRapidEvents(t *testing.T) {
 	rapid.Check(t, func(rt *rapid.T) {
 		cfg := lp.DefaultCfg()
 		cfg.NoLong = true
+		cfg.NoScale = true // wide events are generated below; every event of a program is a case of its own here
 		cfg.NoSettings = rapid.IntRange(0, 3).Draw(rt, "defaults") != 0
 		cfg.MaxOps = 5
 		g := lp.NewG(rt, cfg)
